@@ -39,3 +39,19 @@ package sm4
 //@   requires x.b != nil && len(src) >= 16 && len(dst) >= len(src)
 //@   requires len(src) < 64 || len(src) % 64 == 0 || len(src) % 64 >= 16
 //@   modifies dst[0..len(src)], x.tweak
+
+// ---- ECB / CBC through the assembly: every call satisfies what the routine needs
+//@ func encryptSm4Ecb trusted property C03
+//@   requires len(src) > 0 && len(src) % 16 == 0 && len(dst) >= len(src)
+//@   modifies dst[0..len(src)]
+//@ func decryptBlocksChain trusted property C03
+//@   requires len(src) > 0 && len(src) % 16 == 0 && len(dst) >= len(src)
+//@   modifies dst[0..len(src)], heap H_u8
+//@ func (*ecb).validate property C03
+//@   panics iff len(src) % 16 != 0 || len(dst) < len(src) || (sameobj(dst, src) && offof(dst) != offof(src) && offof(dst) < offof(src) + len(src) && offof(src) < offof(dst) + len(src))
+//@   ensures len(src) % 16 == 0 && len(dst) >= len(src)
+//@   modifies nothing
+//@ func (*ecb).CryptBlocks property C03
+//@   requires x.b != nil
+//@   maypanic
+//@   modifies dst[0..len(src)]
